@@ -114,6 +114,15 @@ theorem C06_request_goroutines :
     handshake storm of the harness.) -/
 theorem C06_lifecycle_lock_not_reentered : Mcp.Gen.rpcLifecycleNestedLocks = [] ∧ Mcp.Gen.rpcLifecycleLockers ≠ [] := by decide
 
+/-- T-gen: the functions that wait for or deliver a peer's response to a server→client request (`SendRequest`,
+    `HandleResponse`, `handleResponseMessage`, `handlePostResponse` … of the three servers) never `close` a channel: a
+    waiter that gives up leaves by deleting its entry from the pending table — were it to close its channel, a response
+    that was looked up a moment earlier would be sent on a closed channel and the panic would kill the process (the run-time
+    side: answers of 1–4 MB arriving around the deadline of their request, harness scenario "response race"). -/
+theorem C06_pending_channels_not_closed :
+    Mcp.Gen.rpcResponseChannelCloses = [] ∧ t!"StdioServer.SendRequest" ∈ Mcp.Gen.rpcResponseFunctions ∧
+    t!"SSEServer.SendRequest" ∈ Mcp.Gen.rpcResponseFunctions ∧ t!"httpServerHandler.SendRequest" ∈ Mcp.Gen.rpcResponseFunctions := by decide
+
 /-! ## malformed input is answered -/
 
 /-- Streamable HTTP — whatever the mode, the session reference and the Accept header: a wrong path is answered 404, an unknown
